@@ -1,9 +1,9 @@
 (** C10 - Bin-covering heuristics meet their approximation guarantees.
     Proved: never more than OPT (all three); decreasing covers at least OPT/2 bins (stronger than the
-    (OPT-1)/2 of the property).  NOT proved: 2/3 (OPT-1) for two-thirds and 3/4 OPT - 4 for three-quarters
+    (OPT-1)/2 of the property).  two-thirds covers at least 2/3 (OPT-1) bins (full statement, Proofs/CoverRatioProofs.v).  NOT proved: 3/4 OPT - 4 for three-quarters
     (tested against the verified max_cover oracle and planted instances; DESIGN section 8).
     Statements only; proofs in Proofs/CoveringProofs.v and Proofs/OracleSpec.v. *)
-From Prtpy Require Import Base.Prelude Model.Binner Model.Covering Spec.Partition Oracle.Reach Proofs.CoveringProofs Proofs.OracleSpec.
+From Prtpy Require Import Base.Prelude Model.Binner Model.Covering Spec.Partition Oracle.Reach Proofs.CoveringProofs Proofs.OracleSpec Proofs.CoverRatioProofs.
 
 (** decreasing: never reports more than OPT *)
 Theorem C10_dec_le_opt : forall (A : Type) (valueof : A -> Z) (C : Z) (items : list A) (n : nat),
@@ -38,3 +38,16 @@ Theorem C10_max_cover_oracle : forall C vs, 0 < C -> Forall (fun v => 0 < v) vs 
 Proof. exact max_cover_spec. Qed.
 Print Assumptions C10_max_cover_oracle.
 
+(** two-thirds: covered >= 2/3 (OPT - 1)  -- the guarantee of Csirik, Frenk, Labbe, Zhang (1999), proved in full *)
+Theorem C10_twothirds_ratio : forall (A : Type) (valueof : A -> Z) (C : Z) (items : list A) (n : nat),
+  0 < C -> Forall (fun x : A => 0 < valueof x) items ->
+  MaxCover C (map valueof items) n -> (2 * (n - 1) <= 3 * length (cover_twothirds valueof true C items))%nat.
+Proof. exact @twothirds_ratio. Qed.
+Print Assumptions C10_twothirds_ratio.
+
+(** ... in the sharper form 2 OPT <= 3 covered + 1 (attained: C = 12, items 5 5 5 5 2 2) *)
+Theorem C10_twothirds_ratio_strong : forall (A : Type) (valueof : A -> Z) (C : Z) (items : list A) (n : nat),
+  0 < C -> Forall (fun x : A => 0 < valueof x) items ->
+  MaxCover C (map valueof items) n -> (2 * n <= 3 * length (cover_twothirds valueof true C items) + 1)%nat.
+Proof. exact @twothirds_ratio_strong. Qed.
+Print Assumptions C10_twothirds_ratio_strong.
